@@ -355,7 +355,7 @@ class Evaluator:
                     if not self.feasible(envd):
                         continue
                     v = self.eval(fn.expr_call(d[2]), envd)
-                elif not d[3]["place"]["p"]:
+                elif d[0] == "assign" and not d[3]["place"]["p"]:
                     envd = self.env_at(d[1])
                     if not self.feasible(envd):
                         continue
@@ -610,3 +610,59 @@ def deref_strip(e):
 
 def is_leaf(e):
     return isinstance(e, tuple) and e and e[0] in ("arg", "path", "phi", "local", "call")
+
+
+def enumerate_paths(ev, max_paths=4000):
+    """Path enumeration over a loop-free CFG with interval refinement on every branch edge (no
+    solver): yields (env, blocks) for every feasible entry->return path.  Raises on a cycle."""
+    fn = ev.fn
+    out = []
+
+    def rec(b, env, path):
+        if len(out) > max_paths:
+            raise RuntimeError("too many paths")
+        if b in path:
+            raise RuntimeError("loop in CFG: path enumeration not applicable")
+        path = path + [b]
+        t = fn.blocks[b]["term"]
+        k = t["k"]
+        if k == "return":
+            out.append((env, path))
+            return
+        if k == "switch":
+            discr = fn.expr_operand(t["op"])
+            listed = [v for v, _ in t["targets"]]
+            for v, tgt in t["targets"]:
+                e2 = dict(env)
+                ev.apply_guard(e2, ("eqval", discr, v, t["opty"]))
+                if ev.feasible(e2):
+                    rec(tgt, e2, path)
+            e2 = dict(env)
+            ev.apply_guard(e2, ("notin", discr, tuple(listed), t["opty"]))
+            if ev.feasible(e2):
+                # bool switch with one listed value: otherwise is the other value
+                rec(t["otherwise"], e2, path)
+            return
+        if k == "assert":
+            e2 = dict(env)
+            ev.apply_guard(e2, ("eqval", fn.expr_operand(t["cond"]), 1 if t["expected"] else 0, "bool"))
+            if ev.feasible(e2):
+                rec(t["t"], e2, path)
+            return
+        for s in fn.succ(b):
+            rec(s, env, path)
+    rec(0, dict(ev.domain), [])
+    return out
+
+
+def last_def_on_path(fn, local, path):
+    """value-flow expression of the last whole definition of `local` along a block path"""
+    res = None
+    for b in path:
+        for s in fn.blocks[b]["stmts"]:
+            if s["k"] == "assign" and s["place"]["l"] == local and not s["place"]["p"]:
+                res = fn.expr_rvalue(s["rv"])
+        t = fn.blocks[b]["term"]
+        if t["k"] == "call" and t["dest"]["l"] == local and not t["dest"]["p"]:
+            res = fn.expr_call(t)
+    return res
